@@ -71,6 +71,18 @@ def sessions(ctx):
     return p
 
 
+def decisions(ctx):
+    """The decision table of Reader.Messages (ReadDecision.tla): model-checked, exported, replayed by `irun -mode decision`."""
+    out = ctx.tlc_model("ReadDecision.tla", "ReadDecision.cfg", workers=1)
+    rows = sorted(set(json.loads('"' + x + '"') for x in re.findall(r'<<"DECISION", "(.*)">>', out)))
+    if not rows:
+        raise MachineryError("ReadDecision.tla exported no table")
+    p = os.path.join(ctx.tmp, "decisions.ndjson")
+    open(p, "w").write("\n".join(rows) + "\n")
+    ctx.extra["decision_rows_replayed"] = len(rows)
+    return p
+
+
 def judge(ctx, prop, name, trace, files, replay_workers=0):
     rej = ctx.tlc_trace("TraceIndexed.tla", "TraceIndexed.cfg", trace, timeout=3000)
     events = read_ndjson(trace)
@@ -102,6 +114,11 @@ def judge(ctx, prop, name, trace, files, replay_workers=0):
     specs = None
     for r in rej:
         for why in r["why"]:
+            if why.startswith("DRIFT/"):
+                ctx.extra["impl_layer_drift"] = ctx.extra.get("impl_layer_drift", 0) + 1
+                if len([x for x in ctx.notes if "ReadDecision" in x]) < 3:
+                    ctx.notes.append("MODEL-DRIFT: ReadDecision.tla predicts another outcome / iterator than the real reader (%s) for %s at trace line %d of %s" % (why, r["id"], r["line"], name))
+                continue
             if why.split("/")[0] != prop:
                 continue
             bad.add(r["line"])
@@ -153,6 +170,7 @@ def run(ctx, prop):
         ctx.tlc_model("IndexedRead.tla", "Indexed_wide.cfg", timeout=3400)
     reads = {"C02": 4, "C03": 4, "C04": 24, "C20": 6}[prop]
     if prop == "C02":
+        drive(ctx, prop, "decision", ["-mode", "decision", "-in", decisions(ctx)])
         drive(ctx, prop, "writer", ["-mode", "writer", "-seed", s, "-n", 300 if quick else 4000, "-reads", reads, "-sessions", sessions(ctx), "-nsess", 4], replay_workers=8)
         drive(ctx, prop, "exh", ["-mode", "exh", "-seed", s, "-chunks", 2, "-msgs", 2, "-times", 3, "-stride", 8 if quick else 1, "-reads", reads])
     elif prop in ("C03", "C04"):
